@@ -9,7 +9,7 @@ use serde_json::{json, Value as J};
 
 pub static PROP: Prop = Prop {
     id: "C07",
-    rule: "cases: programs (1-5 statements, trees of depth <= 4, every compound operand parenthesised) in which observable nodes sit at every kind of position: calls t_i(args) and bare names t_i bound to logging context functions (some shadowing global functions), logging global functions vh_g_i(args), logging prefix/infix/postfix operators (one infix operator registered LEFT-, one RIGHT-associative) and a logging SETTER operator, as operands of every built-in infix operator (&& and || included), call arguments, list elements, map keys and values, condition and both branches of conditionals, statements, right sides of assignments; every logger returns a preset value of the type its position needs; in half of the cases one logger, chosen by its position k in the call order, is armed to return Err. Oracle: the call log predicted by the reference traversal (post-order, children left to right, handler after its operands with exactly the operand values, key before value, only the selected branch): without fault the logs must be equal (same calls, same order, same arguments => each once, left to right); with a fault at k the result must be Err, the log must be the expected prefix of length k+1 and the context must equal the model's. Non-trivial: >= 3 observable nodes and (an observable inside an operand of another observable, or a conditional with observables in both branches, or an armed fault that is not the last call); distinct by (program skeleton, k).",
+    rule: "cases: programs (1-5 statements, trees of depth <= 4, every compound operand parenthesised) in which observable nodes sit at every kind of position: calls t_i(args) and bare names t_i bound to logging context functions (some shadowing global functions), logging global functions vh_g_i(args), logging prefix/infix/postfix operators (one infix operator registered LEFT-, one RIGHT-associative) and a logging SETTER operator, as operands of every built-in infix operator (&& and || included), call arguments, list elements, map keys and values, condition and both branches of conditionals, statements, right sides of assignments, and as assignment targets (a name bound to a logging context function: reading the target invokes it); every logger returns a preset value of the type its position needs; in half of the cases one logger, chosen by its position k in the call order, is armed to return Err. A third of the programs are run a second time in the form the engine's own expr() writes them (parentheses only where grouping needs them, so comparison and arithmetic chains appear unparenthesised), with the same expectations. Oracle: the call log predicted by the reference traversal (post-order, children left to right, handler after its operands with exactly the operand values, key before value, only the selected branch): without fault the logs must be equal (same calls, same order, same arguments => each once, left to right); with a fault at k the result must be Err, the log must be the expected prefix of length k+1 and the context must equal the model's. Non-trivial: >= 3 observable nodes and (an observable inside an operand of another observable, or a conditional with observables in both branches, or an armed fault that is not the last call); distinct by (program skeleton, k).",
     assumptions: &[
         "no observable is placed under an assignment whose target is not a plain name, and no assignment targets a name bound to a context function (the statements do not pin what runs there)",
         "cases whose reference outcome is unspecified (rounding, inexact quotient) are excluded and counted",
@@ -75,6 +75,33 @@ pub fn check(tree: &R, sc: &crate::gen_sem::SemCtx, fault: Option<usize>, st: &m
             format!("{}\n    {}", text, why),
             case(),
         ));
+    }
+    // the same program as the engine itself writes it (expr(): parentheses only where the
+    // grouping needs them, so operator chains appear unparenthesised): same calls, same order
+    if text.len() % 3 == 0 {
+        if let Ok(Ok(text2)) = guard(|| expression_engine::parse_expression(&text).map(|a| a.expr()).map_err(|e| e.to_string())) {
+            if text2 != text {
+                st.hist("also-run-as-written-by-expr");
+                let out2 = run_engine(&text2, sc, fault.map(|k| (k, Mode::Err)));
+                let mut case2 = case();
+                case2["as_written_by_expr"] = json!(text2);
+                if let Err(why) = agree(&out2.engine, &ev) {
+                    return Err(Failure::new(
+                        format!("minimal-parentheses:result:{}", root_op(tree)),
+                        format!("{}\n    written by expr() as: {}\n    {}\n    expected log: {}\n    engine log  : {}", text, text2, why, show_log(&m.log), show_log(&out2.log)),
+                        case2,
+                    ));
+                }
+                if !same_log(&m.log, &out2.log) {
+                    let sig = log_signature(&m.log, &out2.log, matches!(ev, Ev::Fault | Ev::Err(_)));
+                    return Err(Failure::new(
+                        format!("minimal-parentheses:log:{}", sig),
+                        format!("{}\n    written by expr() as: {}\n    expected calls: {}\n    engine calls  : {}", text, text2, show_log(&m.log), show_log(&out2.log)),
+                        case2,
+                    ));
+                }
+            }
+        }
     }
     Ok(())
 }
